@@ -90,6 +90,21 @@ def run_case(mode, grid, li, quad, ei, pair, drv, variant):
     def go():
         if mode == "A":
             fwd = dsm_impl.run_stock("inflow", grid, lt, quad, extra, shapes, d, pass_arrays=pass_arrays, recompute=past)
+            if variant == "convert":
+                # the stock-driven model is obtained by converting the computed inflow-driven one
+                import flodym
+
+                back = {}
+                for s in ("manual", "lapack"):
+                    src = dsm_impl.run_stock("inflow", grid, lt, quad, extra, shapes, d)["obj"]
+                    conv = src.to_stock_type(flodym.StockDrivenDSM, solver=s)
+                    conv.compute()
+                    back[s] = dict(
+                        stock=dsm_impl.series_from_nd(conv.stock.values, extra), inflow=dsm_impl.series_from_nd(conv.inflow.values, extra),
+                        outflow=dsm_impl.series_from_nd(conv.outflow.values, extra), sbc=dsm_impl.table_from_nd(conv.get_stock_by_cohort(), extra),
+                        obc=dsm_impl.table_from_nd(conv.get_outflow_by_cohort(), extra),
+                    )
+                return fwd, back
             back = {s: dsm_impl.run_stock("stock-" + s, grid, lt, quad, extra, shapes, fwd["stock"], pass_arrays=pass_arrays, recompute=past) for s in ("manual", "lapack")}
             return fwd, back
         back = {s: dsm_impl.run_stock("stock-" + s, grid, lt, quad, extra, shapes, d, int_dtype=int_dtype, pass_arrays=pass_arrays, recompute=past) for s in ("manual", "lapack")}
@@ -158,6 +173,8 @@ def run_unit(u):
                 jobs += [("B", drv, "plain") for drv in DRV_B + imps]
                 if qi in (0, 1):
                     jobs += [("B", drv, "int") for drv in ("inc", "dec", "hump")] + [("A", "pos", "arrays"), ("B", "dec", "arrays"), ("A", "pos2", "past"), ("B", "hump", "past")]
+                if qi in (0, 3):
+                    jobs += [("A", "pos", "convert")]
                 for mode, drv, variant in jobs:
                     oc, f = run_case(mode, grid, li, quad, ei, pair, drv, variant)
                     res["evals"] += 1
